@@ -186,6 +186,9 @@ Proof.
   destruct (saturating_spec 64 a b Ha Hb) as (_ & S & _). exact S.
 Qed.
 
+Ltac box_norm :=
+  repeat rewrite box_count_asum in *; unfold box_bytes in *; unfold fbytes, fone, fopt in *; cbv beta in *.
+
 Lemma newBox_ok P name value w w' u V d :
   BInv w V -> blen name + blen value + 1 <= d -> V + d < 2 ^ 64 ->
   newBox P name value w = (w', Ok u) ->
@@ -200,13 +203,11 @@ Proof.
   split; [|split; [repeat split|split; [exact Eh|reflexivity]]].
   pose proof (asum_aset bytes_eqb bytes_eqb_eq fbytes name value (w_box w)) as S1.
   pose proof (asum_aset bytes_eqb bytes_eqb_eq fone name value (w_box w)) as S2.
-  rewrite Eh in S1, S2. cbn [fopt] in S1, S2.
-  assert (fone name value = 1) as F1 by reflexivity.
-  assert (fbytes name value = blen name + blen value) as F2 by reflexivity.
+  rewrite Eh in S1, S2.
   split; cbn [set_boxes w_box w_tb w_tbb].
   - apply NoDup_aset; [exact bytes_eqb_eq|exact Nd].
-  - rewrite addsat_exact by lia. rewrite box_count_asum, Htb, box_count_asum. lia.
-  - rewrite addsat_exact by lia. rewrite box_bytes_asum, Htbb, box_bytes_asum. lia.
+  - rewrite addsat_exact by lia. box_norm. lia.
+  - rewrite addsat_exact by lia. box_norm. lia.
   - rewrite addsat_exact by lia. lia.
   - rewrite addsat_exact by lia. lia.
 Qed.
@@ -222,17 +223,14 @@ Proof.
   - inversion H; subst; clear H.
     pose proof (asum_adel bytes_eqb bytes_eqb_eq fbytes name (w_box w)) as S1.
     pose proof (asum_adel bytes_eqb bytes_eqb_eq fone name (w_box w)) as S2.
-    rewrite Eg in S1, S2. cbn [fopt] in S1, S2.
-    assert (fone name value = 1) as F1 by reflexivity.
-    assert (fbytes name value = blen name + blen value) as F2 by reflexivity.
-    rewrite <- box_bytes_asum, <- Htbb in S1. rewrite <- box_count_asum, <- Htb in S2.
+    rewrite Eg in S1, S2.
     split; [|split; [repeat split|split; [eauto|discriminate]]].
     split; cbn [set_boxes w_box w_tb w_tbb].
     + apply NoDup_adel; try exact bytes_eqb_eq; exact Nd.
-    + rewrite subsat_exact by lia. rewrite box_count_asum. lia.
-    + rewrite subsat_exact by lia. rewrite box_bytes_asum. lia.
-    + rewrite subsat_exact by lia. lia.
-    + rewrite subsat_exact by lia. lia.
+    + box_norm. rewrite subsat_exact by lia. lia.
+    + box_norm. rewrite subsat_exact by lia. lia.
+    + box_norm. rewrite subsat_exact by lia. lia.
+    + box_norm. rewrite subsat_exact by lia. lia.
   - inversion H; subst. split; [split; auto|]. split; [apply same_kv_refl|]. split; [discriminate|reflexivity].
 Qed.
 
@@ -245,15 +243,11 @@ Proof.
   apply negb_false_iff, N.eqb_eq in El. inversion H; subst; clear H.
   pose proof (asum_aset bytes_eqb bytes_eqb_eq fbytes name value (w_box w)) as S1.
   pose proof (asum_aset bytes_eqb bytes_eqb_eq fone name value (w_box w)) as S2.
-  rewrite Eg in S1, S2. cbn [fopt] in S1, S2.
-  assert (fone name value = 1) as F1 by reflexivity.
-  assert (fone name old = 1) as F1' by reflexivity.
-  assert (fbytes name value = blen name + blen value) as F2 by reflexivity.
-  assert (fbytes name old = blen name + blen old) as F2' by reflexivity.
+  rewrite Eg in S1, S2.
   split; [|repeat split]. split; cbn [set_boxes w_box w_tb w_tbb]; auto.
   - apply NoDup_aset; [exact bytes_eqb_eq|exact Nd].
-  - rewrite box_count_asum, Htb, box_count_asum. lia.
-  - rewrite box_bytes_asum, Htbb, box_bytes_asum. lia.
+  - box_norm. lia.
+  - box_norm. lia.
 Qed.
 
 Lemma lengthChecks_ok P name size w w' u :
@@ -274,10 +268,86 @@ Proof. unfold blen. rewrite app_length. lia. Qed.
 Lemma blen_firstn n a : n <= blen a -> blen (firstn (N.to_nat n) a) = n.
 Proof. unfold blen. intros H. rewrite firstn_length. lia. Qed.
 
-(* every box opcode that succeeds keeps the box accounting exact *)
-Lemma box_sop_ok P o w w' r V :
-  is_box_op o = true ->
-  BInv w V -> V + sop_volume o < 2 ^ 64 ->
-  run_sop P false 0 [] o w = (w', Ok r) ->
-  BInv w' (V + sop_volume o) /\ same_kv w w'.
-Proof. Abort.
+Lemma BInv_mono w V V' : BInv w V -> V <= V' -> BInv w V'.
+Proof. intros [A B C D E] H. split; auto; lia. Qed.
+
+Lemma BInv_same_boxes w w' V :
+  BInv w V -> w_box w' = w_box w -> w_tb w' = w_tb w -> w_tbb w' = w_tbb w -> BInv w' V.
+Proof. intros [A B C D E] H1 H2 H3. split; rewrite ?H1, ?H2, ?H3; auto. Qed.
+
+(* every box opcode that succeeds keeps the box accounting exact and touches nothing else *)
+Lemma boxCreate_ok P n s w w' r V :
+  BInv w V -> V + (blen n + s + 1) < 2 ^ 64 -> boxCreate P n s w = (w', Ok r) ->
+  BInv w' (V + (blen n + s + 1)) /\ same_kv w w'.
+Proof.
+  intros I HV H. unfold boxCreate in H. unfold bind at 1 in H.
+  destruct (lengthChecks P n s w) as [w0 [u|e]] eqn:E0; [|discriminate].
+  apply lengthChecks_ok in E0. destruct E0 as [-> _].
+  unfold bind at 1 in H. unfold getBox at 1 in H. cbn beta iota in H.
+  destruct (bget n (w_box w)) as [content|] eqn:Eg.
+  - destruct (negb (s =? blen content)); [discriminate|]. inversion H; subst.
+    split; [eapply BInv_mono; eauto; lia|apply same_kv_refl].
+  - unfold bind in H. destruct (newBox P n (zeros s) w) as [w1 [u1|e]] eqn:E1; [|discriminate].
+    inversion H; subst; clear H.
+    assert (blen n + blen (zeros s) + 1 <= blen n + s + 1) as Hd by (rewrite blen_zeros; lia).
+    destruct (newBox_ok _ _ _ _ _ _ V _ I Hd HV E1) as (I1 & K1 & _). auto.
+Qed.
+
+Lemma boxResize_ok P n s w w' r V :
+  BInv w V -> V + (blen n + s + 1) < 2 ^ 64 -> boxResize P n s w = (w', Ok r) ->
+  BInv w' (V + (blen n + s + 1)) /\ same_kv w w'.
+Proof.
+  intros I HV H. unfold boxResize in H. unfold bind at 1 in H.
+  destruct (lengthChecks P n s w) as [w0 [u|e]] eqn:E0; [|discriminate].
+  apply lengthChecks_ok in E0. destruct E0 as [-> _].
+  unfold bind at 1 in H. unfold getBox at 1 in H. cbn beta iota in H.
+  destruct (bget n (w_box w)) as [content|] eqn:Eg; [|discriminate].
+  unfold bind in H. destruct (delBox n w) as [w1 [b|e]] eqn:E1; [|discriminate].
+  assert (V < 2 ^ 64) as HV0 by lia.
+  destruct (delBox_ok _ _ _ _ _ I HV0 E1) as (I1 & K1 & _).
+  match type of H with newBox _ _ ?rz _ = _ => assert (blen n + blen rz + 1 <= blen n + s + 1) as Hd end.
+  { destruct (blen content <? s) eqn:El.
+    - apply N.ltb_lt in El. rewrite blen_app, blen_zeros. lia.
+    - apply N.ltb_ge in El. rewrite blen_firstn by exact El. lia. }
+  destruct (newBox_ok _ _ _ _ _ _ V _ I1 Hd HV H) as (I2 & K2 & _).
+  split; [exact I2|eapply same_kv_trans; eauto].
+Qed.
+
+Lemma boxReplace_ok P n st d w w' r V :
+  BInv w V -> boxReplace P n st d w = (w', Ok r) -> BInv w' V /\ same_kv w w'.
+Proof.
+  intros I H. unfold boxReplace in H. unfold bind at 1 in H.
+  destruct (lengthChecks P n _ w) as [w0 [u|e]] eqn:E0; [|discriminate].
+  apply lengthChecks_ok in E0. destruct E0 as [-> _].
+  unfold bind in H. unfold getBox in H. cbn beta iota in H.
+  destruct (bget n (w_box w)) as [content|] eqn:Eg; [|discriminate].
+  destruct (replaceCarefully content d st) as [b|]; [|discriminate].
+  eapply setBox_ok; eauto.
+Qed.
+
+Lemma boxPut_ok P n d w w' r V :
+  BInv w V -> V + (blen n + blen d + 1) < 2 ^ 64 -> boxPut P n d w = (w', Ok r) ->
+  BInv w' (V + (blen n + blen d + 1)) /\ same_kv w w'.
+Proof.
+  intros I HV H. unfold boxPut in H. unfold bind at 1 in H.
+  destruct (lengthChecks P n _ w) as [w0 [u|e]] eqn:E0; [|discriminate].
+  apply lengthChecks_ok in E0. destruct E0 as [-> _].
+  unfold bind in H. unfold getBox in H. cbn beta iota in H.
+  destruct (bget n (w_box w)) as [content|] eqn:Eg.
+  - destruct (negb (blen content =? blen d)); [discriminate|].
+    destruct (setBox_ok _ _ _ _ _ _ I H) as [I1 K1]. split; [eapply BInv_mono; eauto; lia|exact K1].
+  - destruct (newBox_ok _ _ _ _ _ _ V (blen n + blen d + 1) I (N.le_refl _) HV H) as (I1 & K1 & _). auto.
+Qed.
+
+Lemma boxDel_ok P n w w' r V :
+  BInv w V -> V < 2 ^ 64 -> boxDel P n w = (w', Ok r) -> BInv w' V /\ same_kv w w'.
+Proof.
+  intros I HV H. unfold boxDel in H. unfold bind at 1 in H.
+  destruct (lengthChecks P n 0 w) as [w0 [u|e]] eqn:E0; [|discriminate].
+  apply lengthChecks_ok in E0. destruct E0 as [-> _].
+  unfold bind at 1 in H. unfold getBox at 1 in H. cbn beta iota in H.
+  destruct (bget n (w_box w)) as [content|] eqn:Eg.
+  - unfold bind in H. destruct (delBox n w) as [w1 [b|e]] eqn:E1; [|discriminate].
+    inversion H; subst; clear H. destruct (delBox_ok _ _ _ _ _ I HV E1) as (I1 & K1 & _). auto.
+  - inversion H; subst. split; [exact I|apply same_kv_refl].
+Qed.
